@@ -77,7 +77,10 @@ def embeddings(t):
     A, P, Q = I("a"), I("p"), I("q")
     out = [("obj-of-iri", [(A, P, t)]),
            ("obj-of-bnode", [(A, P, B("b1")), (B("b1"), Q, t)]),
-           ("list-member", [(A, P, B("b1")), (B("b1"), FIRST, t), (B("b1"), REST, NIL)])]
+           ("list-member", [(A, P, B("b1")), (B("b1"), FIRST, t), (B("b1"), REST, NIL)]),
+           # not the head member: list walks treat the head and the later cells differently
+           ("list-later-member", [(A, P, B("b1")), (B("b1"), FIRST, A), (B("b1"), REST, B("b2")), (B("b2"), FIRST, t), (B("b2"), REST, B("b3")),
+                                  (B("b3"), FIRST, t), (B("b3"), REST, NIL)])]
     if t[0] == "I":
         out.append(("subject", [(t, P, A)]))
         out.append(("predicate", [(A, t, I("b"))]))
@@ -300,7 +303,7 @@ def run(ctx):
     ctx.cov["topologies"] = len(topo)
     ctx.cov["exhaustive"] = True
     ctx.cov["rule"] = ("(A) every term of the table (all strings of length <=%d over a 12-char alphabet x {plain, @en, xsd:string, custom datatype}, numeric/"
-                       "boolean/date lexical table, IRI table) embedded as object of an IRI, of a blank node, as list member (IRIs also as subject / predicate) x 8 "
+                       "boolean/date lexical table, IRI table) embedded as object of an IRI, of a blank node, as head and as later (repeated) list member (IRIs also as subject / predicate) x 8 "
                        "formats x {plain, namespace-like base + prefixes, file-like base + prefixes}; (B) every graph with <=%d triples over {A,b1,b2,b3,nil} x {P,first,rest} x one literal, one per blank-"
                        "node renaming class. Non-trivial: term needs escaping/shorthand/splitting, or graph has a blank node." % (3 if thorough else 2, 3 if thorough else 2))
     ctx.sample({"triples": [[I("a"), I("p"), L('"\n')]], "format": "turtle", "option": "plain"})
@@ -319,7 +322,7 @@ def replay(ctx, case):
         tc = topo_class(triples)
     else:
         # the varied term is the object of the last triple, or the subject / predicate of the only one
-        tc = term_class(triples[0][0] if emb == "subject" else triples[0][1] if emb == "predicate" else triples[-1][2] if emb != "list-member" else triples[1][2])
+        tc = term_class(triples[0][0] if emb == "subject" else triples[0][1] if emb == "predicate" else triples[1][2] if emb == "list-member" else triples[3][2] if emb == "list-later-member" else triples[-1][2])
     return [{"sig": "%s|%s|%s" % (case["format"], v[0], tc), "case": case, "detail": v[1]}]
 
 
